@@ -124,7 +124,9 @@ pub fn gen_pre(r: &mut Rng) -> Vec<PreOp> {
     (0..n)
         .map(|_| {
             let v = r.below(250) as u8;
-            let kind = match r.weighted(&[3, 2, 3, 2, 1, 2, 2]) {
+            let kind = match r.weighted(&[3, 2, 3, 2, 1, 2, 2, 2, 2]) {
+                7 => PreKind::StaleDirect(v),
+                8 => PreKind::StaleJson(v),
                 0 => PreKind::BadCompile(v),
                 1 => PreKind::BadCompileFree(v),
                 2 => PreKind::FailExec(v),
@@ -915,7 +917,12 @@ pub fn gen07_random(seed: u64) -> EnvCase {
         _ => main,
     };
     b.case.pre = gen_pre(&mut r);
-    b.finish(main)
+    let mut case = b.finish(main);
+    // the outer bindings (among them one under the loop variable's name) may come from JSON
+    if r.chance(1, 4) && case.bindings.values().all(super::run::json_faithful) {
+        case.via_json = true;
+    }
+    case
 }
 
 // ------------------------------------------------------------------------------------------
@@ -1001,13 +1008,17 @@ pub fn build_path(b: &mut Builder, r: &mut Rng, d: usize, cfg: PathCfg, mask: u3
     } else {
         leaf
     };
+    // a key that IS there may bear a callable's name as well: the field wins
+    let callable_present = d >= 1 && matches!(cfg, PathCfg::Present | PathCfg::NullLeaf | PathCfg::RootCallback | PathCfg::RootProgram) && r.chance(1, 5);
+    let present_name = *r.pick(&["size", "min", "max", "filter", "map", "contains"]);
     // build nested maps bottom-up
     let mut tree = leaf;
     for lvl in (1..=d).rev() {
         let mut m = BTreeMap::new();
         let missing = matches!(cfg, PathCfg::MissingAt(l) if l == lvl) || (cfg == PathCfg::LiteralMissingLeaf && lvl == d);
         if !missing {
-            m.insert(FIELDS[lvl - 1].to_string(), tree);
+            let key = if callable_present && lvl == d { present_name } else { FIELDS[lvl - 1] };
+            m.insert(key.to_string(), tree);
         }
         // siblings so that maps are not empty and lookups have something to confuse
         if r.chance(1, 2) {
@@ -1081,7 +1092,13 @@ pub fn build_path(b: &mut Builder, r: &mut Rng, d: usize, cfg: PathCfg, mask: u3
     // a key that is not there
     let callable_leaf = d >= 1 && matches!(cfg, PathCfg::MissingAt(l) if l == d) && r.chance(1, 3);
     for i in 0..d {
-        let name = if callable_leaf && i + 1 == d { *r.pick(&["size", "filter", "min", "map", "contains", "round"]) } else { FIELDS[i] };
+        let name = if callable_leaf && i + 1 == d {
+            *r.pick(&["size", "filter", "min", "map", "contains", "round"])
+        } else if callable_present && i + 1 == d {
+            present_name
+        } else {
+            FIELDS[i]
+        };
         e = if mask & (1 << i) != 0 {
             E::Index(Box::new(e), Box::new(E::Lit(V::s(name))))
         } else {
@@ -1098,7 +1115,7 @@ fn replace_at(tree: V, steps: usize, with: V) -> V {
     match tree {
         V::Map(mut m) => {
             // follow the path field at this level
-            let key = m.keys().find(|k| FIELDS.contains(&k.as_str())).cloned();
+            let key = m.keys().find(|k| FIELDS.contains(&k.as_str()) || ["size", "min", "max", "filter", "map", "contains"].contains(&k.as_str())).cloned();
             if let Some(k) = key {
                 let sub = m.remove(&k).unwrap();
                 m.insert(k, replace_at(sub, steps - 1, with));
@@ -1313,7 +1330,8 @@ fn gen08_expr(b: &mut Builder, r: &mut Rng, depth: u32) -> E {
         // a macro: all of them fail the way the path fails, so absent stays absent
         if r.chance(1, 4) {
             let absent_like = !matches!(cfg, PathCfg::Present | PathCfg::NullLeaf | PathCfg::RootCallback | PathCfg::RootProgram | PathCfg::LiteralPresent);
-            let wrapped = match r.below(5) {
+            let wrapped = match r.below(6) {
+                5 if absent_like => E::NCall(r.pick(&["int", "string", "type", "double", "bool"]).to_string(), vec![p.clone()]),
                 4 if absent_like => E::Reduce(
                     Box::new(E::Lit(V::list(vec![V::Int(1), V::Int(2)]))),
                     "acc".into(),
